@@ -164,6 +164,22 @@ def rule_order(ctx, rid='C15.order', families=None, least=10):
                     what = 'hands the operands to ' + norm(call.func) if deleg else 'applies the selector'
                     ctx.ob(rid, f'{f.fq}:{norm(call)}', ok,
                            f'{cname}.{mname} {what} as {opflow.describe(pos)}; constructor order is {opflow.describe(exp)}', call, mod)
+            # the value handed to next()/__embed__ reaches every operand stream that is polled
+            for mname, f in sorted(ci.methods.items()):
+                if mname not in ('next', '__embed__') or len(f.params) < 2:
+                    continue
+                inv = f.params[1]
+                carriers = {inv}
+                for s_ in walk_local(f.node):
+                    if isinstance(s_, ast.Assign) and isinstance(s_.value, (ast.Yield, ast.YieldFrom)):
+                        carriers |= {t.id for t in s_.targets if isinstance(t, ast.Name)}
+                for c in U.calls(f.node):
+                    if isinstance(c.func, ast.Attribute) and c.func.attr == 'next':
+                        n += 1
+                        ok = len(c.args) >= 1 and isinstance(c.args[0], ast.Name) and c.args[0].id in carriers
+                        ctx.ob(rid, f'{f.fq}:{norm(c)}:forwards-inval', ok,
+                               f'{cname}.{mname} polls an operand with `{norm(c)}`: the in-value ({inv}) is not handed on, so an operand '
+                               f'that depends on it (Pkey, Pfunc, a routine reading sent values) sees None', c, mod)
             ctx.ob(rid, f'{ci.fq}:applies-selector', k >= 1, f'{cname} has no method applying or handing over its selector', ci.node, mod)
     ctx.require(n >= least, rid, f'only {n} selector applications found')
 
@@ -384,6 +400,9 @@ def run(ctx):
 
 
 MUTANTS = [
+    dict(rule='C15.order', name='NaropStream polls its arguments without the in-value (seed C15-c)', file='sc3/base/stream.py',
+         old="        args = []\n        res = None\n        for item in self.args:\n            res = item.next(inval)  # raises StopStream\n            args.append(res)\n        return self.selector(a, *args)",
+         new="        args = [item.next() for item in self.args]  # raises StopStream\n        return self.selector(a, *args)"),
     dict(rule='C15.laws', name='(fix reverted) cpsoct offset inside the logarithm', file='sc3/base/builtins.py',
          old="    return log2(freq * _ONE440TH) + 4.75\n", new="    return log2(freq * _ONE440TH + 4.75)\n"),
     dict(rule='C15.laws', name='dbamp uses the factor of ampdb', file='sc3/base/builtins.py',
